@@ -224,7 +224,7 @@ def execute(case):
            "work": out["end_work"] - out["start_work"], "elapsed": out["end_now"] - out["start_now"], "T": T,
            "landing": landing(out.get("sites", [])), "act": act, "probe_lost": st["lost"],
            "clock_reads": out["clock_reads"], "fired": fired, "n_probes": len(probes), "n": n,
-           "digest": W.digest()}
+           "digest": W.digest(), "bdigest": W.bdigest()}
     if T is not None:
         cross = track.cross_work(out["start_work"], out["end_work"], off0, out["start_now"] + T)
         res["overrun"] = (out["end_work"] - cross) if cross is not None else 0
